@@ -366,4 +366,25 @@ def c13(tier, seed):
         exhaustive=False)
 
 
-CHECKS = {'C04': c04, 'C13': c13, 'C18': c18, 'C15': c15, 'C20': c20, 'C11': c11, 'C07': c07, 'C08': c08, 'C09': c09, 'C19': c19, 'C10': c10, 'C01': c01, 'C02': c02, 'C03': c03, 'C05': c05, 'C06': c06, 'C12': c12}
+
+def c14(tier, seed):
+    t = 'quick' if tier == 'quick' else 'thorough'
+    return dict(stages=[Stage('validation', mc=('ValidationMC', 'Validation_%s.cfg' % t), emit=('ValidationMC', 'Validation_%s_emit.cfg' % t),
+                              driver='validation', trace=('ValidationTrace', 'ValidationTrace.cfg'), sanity_events=('Sanity',),
+                              nontrivial=lambda tr: any(e['ev'] == 'Exec' for e in tr['ev']))],
+                rule='validators {JsonSchemaValidator, PydanticValidator with / without coercion} x signatures of 2 parameters over '
+                     'every pair of per-parameter schema fragments (integer, minimum, maximum, string enum, boolean, array of '
+                     'integers; required / additionalProperties) or annotations (int, str, bool, Optional[int], List[int]) x last '
+                     'parameter with / without default x positional prefixes and named subsets x %d argument values per parameter '
+                     '(conforming, convertible, non-conforming) + signatures of 1 parameter with a context parameter / a parameter '
+                     'removed by the exclusion predicate which the client may try to set; non-trivial = the body ran'
+                     % (8 if tier == 'quick' else 12),
+                assumptions=ASSUME_COMMON + ['Validation!SchemaConf / PydConf transcribe jsonschema / pydantic on bare values; every '
+                                             'scenario cross-checks them against jsonschema.validate / pydantic.TypeAdapter (event Sanity), '
+                                             'a disagreement stops the check with exit 2',
+                                             'convertible-but-not-conforming values under the type validator are a don\'t-care region: rejected, '
+                                             'or executed with the original (coercion off) / converted (coercion on) value'],
+                exhaustive=True)
+
+
+CHECKS = {'C04': c04, 'C14': c14, 'C13': c13, 'C18': c18, 'C15': c15, 'C20': c20, 'C11': c11, 'C07': c07, 'C08': c08, 'C09': c09, 'C19': c19, 'C10': c10, 'C01': c01, 'C02': c02, 'C03': c03, 'C05': c05, 'C06': c06, 'C12': c12}
